@@ -65,8 +65,15 @@ def file_pool(rng):
     pool['h?.mos.xml'] = to_text(ro_delete(71))
     pool['i*.mos.xml'] = to_text(ready_to_air(72))
     pool['~j $HOME %41+.mos.xml'] = to_text(story_move(73, ['A', 'B']))
+    # the same files under other spellings of their path: the name is printed as it was given, and a trailing slash after
+    # a regular file is an unreadable path
+    pool['./01-create.mos.xml'] = pool['01-create.mos.xml']
+    pool['sub//90-delete.mos.xml'] = pool['90-delete.mos.xml']
+    pool['sub/./80-ready.mos.xml'] = pool['80-ready.mos.xml']
+    pool['sub/../84-roreplace.mos.xml'] = pool['84-roreplace.mos.xml']
+    pool['82-move0.mos.xml/'] = '<notdir>' + pool['82-move0.mos.xml']
     # structural neighbours of the documents above (gens.mutate_doc): what detect / inspect print for them
-    base = [(k_, v) for k_, v in pool.items() if isinstance(v, str) and v.startswith('<mos')]
+    base = [(k_, v) for k_, v in pool.items() if isinstance(v, str) and v.startswith('<mos') and '/' not in k_]
     for j in range(40):
         k_, v = rng.choice(base)
         pool['m%02d-%s' % (j, k_[3:])] = gens.mutate_doc(rng, v, None, n=rng.randrange(1, 4))
@@ -81,7 +88,7 @@ def model_detect(inspect, names, pool, at='@'):
     docs_ = []
     for n in names:
         try:
-            if pool[n] not in (None, '<dir>'):
+            if pool[n] not in (None, '<dir>') and not str(pool[n]).startswith('<notdir>'):
                 docs_.append(impl.parse_doc(pool[n]))
         except Exception:
             pass
@@ -89,7 +96,7 @@ def model_detect(inspect, names, pool, at='@'):
     for n in names:
         c = pool[n]
         toks.append(X.s_tok(at + n))
-        if c is None or c == '<dir>':
+        if c is None or c == '<dir>' or str(c).startswith('<notdir>'):
             toks.append('U')
         else:
             try:
@@ -139,6 +146,8 @@ class Check:
             cmd = 'inspect' if r % 2 else 'detect'
             if r % 6 == 1:
                 sel[rng.randrange(len(sel))] = rng.choice(['g[1].mos.xml', 'h?.mos.xml', 'i*.mos.xml', '~j $HOME %41+.mos.xml'])
+            if r % 6 == 4:
+                sel[rng.randrange(len(sel))] = rng.choice(['./01-create.mos.xml', 'sub//90-delete.mos.xml', 'sub/./80-ready.mos.xml', 'sub/../84-roreplace.mos.xml', '82-move0.mos.xml/'])
             runs.append({'cmd': cmd, 'names': sel, 'files': {n_: pool[n_] for n_ in set(sel)}, 'bystanders': BYSTANDERS,
                          'argv': [cmd, '-f'] + ['@' + n_ for n_ in sel]})
         return runs
@@ -146,7 +155,7 @@ class Check:
     def s3_detect_runs(self, tier, rng, pool):
         """detect / inspect over a bucket: -b with -p [and -s], or -k.  The fake lists keys in insertion order,
         two per page with empty pages between, and only those under the prefix."""
-        good = [n_ for n_ in sorted(pool) if pool[n_] not in (None, '<dir>')]
+        good = [n_ for n_ in sorted(pool) if pool[n_] not in (None, '<dir>') and not str(pool[n_]).startswith('<notdir>') and '/' not in n_]
         runs = []
         for r in range(16 if tier == 'quick' else 100):
             sel = rng.sample(good, rng.randrange(1, 6))
@@ -188,7 +197,7 @@ class Check:
         for n_ in run['names']:
             c = pool[n_]
             cls = None
-            if c not in (None, '<dir>'):
+            if c not in (None, '<dir>') and not str(c).startswith('<notdir>'):
                 try:
                     mo = MosFile.from_string(c)
                     cls = type(mo).__name__ + (' (completed)' if mo.completed else '')
@@ -231,6 +240,8 @@ class Check:
                 'no-create': {'5.mos.xml': app, '9.mos.xml': rd},
                 'garbage': {'1.mos.xml': ro, '7.mos.xml': 'not xml', '9.mos.xml': rd},
                 'missing': {'1.mos.xml': ro, '8.mos.xml': None, '9.mos.xml': rd},
+                'spelled-paths': {'./1.mos.xml': ro, 'sub//5.mos.xml': app, 'sub/./9.mos.xml': rd},
+                'slash-after-file': {'1.mos.xml': ro, '5.mos.xml/': '<notdir>' + app, '9.mos.xml': rd},
                 'odd-names': {'ro[1].mos.xml': ro, 'app*.mos.xml': app, 'del?.mos.xml': rd},
                 'equal-ids': {'1.mos.xml': ro, 'z-first.mos.xml': to_text(story_append(5, [gens.new_story('ZF')])),
                               'a-second.mos.xml': to_text(story_append(5, [gens.new_story('AS')])), '9.mos.xml': rd}}
@@ -282,7 +293,7 @@ class Check:
             if isinstance(v, dict):
                 return ('<?xml version="1.0" encoding="%s"?>' % v['enc'] + v['text']).encode(v['enc'])
             return v
-        if files and all(v is not None for v in files.values()):
+        if files and all(v is not None and not str(v).startswith('<notdir>') for v in files.values()):
             try:
                 with warnings.catch_warnings():
                     warnings.simplefilter('ignore')
@@ -336,14 +347,14 @@ class Check:
                 c = r['files'][f]
                 if isinstance(c, dict):
                     c = c['text']
-                if c is None:
+                if c is None or str(c).startswith('<notdir>'):
                     toks.append('U')
                 else:
                     try:
                         toks.append('D ' + X.elem_line(impl.parse_doc(c)))
                     except Exception:
                         toks.append('B')
-            es = [impl.parse_doc(c['text'] if isinstance(c, dict) else c) for c in r['files'].values() if c is not None and (isinstance(c, dict) or c.startswith('<'))]
+            es = [impl.parse_doc(c['text'] if isinstance(c, dict) else c) for c in r['files'].values() if c is not None and (isinstance(c, dict) or (c.startswith('<') and not c.startswith('<notdir>')))]
             line = 'clim %s %d %d %d %s' % (engine.oracle_prefix(es), 1 if r['inc'] else 0, 1 if r['ns'] else 0, len(toks), ' '.join(toks))
             mo = engine.run_model([line])[0].split(' ')
             m_status = int(mo[0])
